@@ -114,6 +114,17 @@ def families(tier):
         for order in (names, names[::-1]):
             out.append(dict(prop='C08', family='c08.back_to_a_bus_in_path', id=f'c08/back-{back}-s{int(slowB)}-f{int(fwd_first)}-{redisp}-o{"".join(order)}', cfg=cfg, params=dict(shape='back', awaiter='main'),
                             scn=dict(buses={b: {} for b in names}, order=order, handlers=hs, main=main, actors=[], forwards=[('A', 'B'), ('B', 'C')], fwd_first=fwd_first, settle=3.0)))
+    # two sibling handlers on a parallel_handlers bus await the SAME child (one dispatched it, the other got hold of the object): the one that does not
+    # get to process it inline must still not come back from its await before the child is complete
+    for cb, k, chc in itertools.product('AB', (0, 1), ('pause', 'pause_pause')):
+        names = ['A', 'B'] if cb == 'B' else ['A']
+        hs = [dict(bus='A', pat='P', name='h1', prog=[('disp', cb, 'C', 'late')] + [('pause',)] * k + [('await', 'C'), ('ret', 1)]),
+              dict(bus='A', pat='P', name='h2', prog=[('yield',), ('await_named', 'C<'), ('ret', 2)]),
+              dict(bus=cb, pat='C', name='hc', prog=[('pause',)] * (2 if chc == 'pause_pause' else 1) + [('ret', 'c')]), dict(bus='A', pat='X', name='hx', prog=[('ret', 0)])]
+        main = [('disp', 'A', 'P', 'ff'), ('disp', 'A', 'X', 'ff'), ('pause',)]
+        for order in ([names] if len(names) == 1 else [names, names[::-1]]):
+            out.append(dict(prop='C08', family='c08.same_child_awaited_by_siblings', id=f'c08/samechild-c{cb}-k{k}-{chc}-o{"".join(order)}', cfg=cfg, params=dict(shape='samechild', awaiter='handler'),
+                            scn=dict(buses={b: dict(parallel=(b == 'A')) for b in names}, order=order, handlers=hs, main=main, actors=[], forwards=[], settle=3.0)))
     # parent handler times out while an awaited child with TWO concurrently running handlers (parallel_handlers bus) is processed inline
     for cb, tc in itertools.product('AB', (None, 1.0)):
         names = ['A', 'B'] if cb == 'B' else ['A']
